@@ -672,6 +672,11 @@ func compareRange(value, min, max Object) Object {
 }
 
 func evalBetweenOperand(exp Expression, env *Environment) Object {
+	if indexExpression, isIndex := exp.(*IndexExpression); isIndex {
+		// document paths (m.x, l[0]) are operands too
+		return evalIndex(indexExpression, env)
+	}
+
 	identifier, ok := exp.(*Identifier)
 	if !ok {
 		return newError("identifier expected: got %q", exp.String())
@@ -690,6 +695,11 @@ func evalBetweenOperand(exp Expression, env *Environment) Object {
 }
 
 func evalIdentifierOperand(exp Expression, env *Environment) Object {
+	if indexExpression, isIndex := exp.(*IndexExpression); isIndex {
+		// document paths (m.x, l[0]) are operands too
+		return evalIndex(indexExpression, env)
+	}
+
 	identifier, ok := exp.(*Identifier)
 	if !ok {
 		return newError("identifier expected: got %q", exp.String())
